@@ -23,7 +23,7 @@ func (c08) ID() string { return "C08" }
 
 func (c08) Cases(tier string) int {
 	if tier == "thorough" {
-		return 60000
+		return 25000
 	}
 	return 2000
 }
